@@ -19,6 +19,10 @@ type Options struct {
 	IndentSize         int
 	AlignAmounts       bool
 	MinAlignmentColumn int
+	// SkipLines holds the 0-based lines on which the parser reported an error. Such a line is
+	// left as it is: rebuilding a posting line from the syntax tree would delete the text the
+	// parser did not understand.
+	SkipLines map[int]bool
 }
 
 func DefaultOptions() Options {
@@ -72,18 +76,18 @@ func FormatDocumentWithOptions(journal *ast.Journal, content string, commodityFo
 		}
 	}
 
-	trimEdits := trimTrailingSpacesEdits(content, mapper, postingLines)
+	trimEdits := trimTrailingSpacesEdits(content, mapper, postingLines, opts.SkipLines)
 	edits = append(edits, trimEdits...)
 
 	return edits
 }
 
-func trimTrailingSpacesEdits(content string, mapper *lsputil.PositionMapper, postingLines map[int]bool) []protocol.TextEdit {
+func trimTrailingSpacesEdits(content string, mapper *lsputil.PositionMapper, postingLines, skipLines map[int]bool) []protocol.TextEdit {
 	lines := strings.Split(content, "\n")
 	var edits []protocol.TextEdit
 
 	for lineNum, line := range lines {
-		if postingLines[lineNum] {
+		if postingLines[lineNum] || skipLines[lineNum] {
 			continue
 		}
 
@@ -157,8 +161,11 @@ func formatTransactionWithOpts(tx *ast.Transaction, mapper *lsputil.PositionMapp
 
 	for i := range tx.Postings {
 		posting := &tx.Postings[i]
-		formatted := formatPostingWithOpts(posting, alignment, commodityFormats, indent, opts.AlignAmounts)
 		line := posting.Range.Start.Line - 1
+		if opts.SkipLines[line] {
+			continue
+		}
+		formatted := formatPostingWithOpts(posting, alignment, commodityFormats, indent, opts.AlignAmounts)
 
 		edit := protocol.TextEdit{
 			Range: protocol.Range{
